@@ -21,16 +21,16 @@ var discardTable = map[string]struct {
 	n   int
 	why string
 }{
-	"inprocgrpc|frame-writer":      {7, "server goroutines abandon a frame only when the context ended; the client re-checks ctx after every receive (C02/R1)"},
-	"inprocgrpc|TrySetTrailer":     {1, "grpc.ServerStream.SetTrailer has no error result; TrySetTrailer is the error-returning variant used by the transport stream"},
-	"httpgrpc|http-frame-writer":   {1, "final trailer frame: a failed write leaves the reply without trailer, which the client reports as an error (C02/R1 HTTP)"},
-	"httpgrpc|Write":               {1, "unary body write: a short body contradicts Content-Length and fails the client's read"},
-	"httpgrpc|drain":               {2, "deferred drain of the request body: nothing to report to"},
-	"httpgrpc|Close":               {2, "closing a reply body that was read completely / drained"},
-	"httpgrpc|ReadAll":             {1, "deferred drain of the reply body so the connection can be reused"},
-	"httpgrpc|CloseWithError":      {1, "always returns nil (io.Pipe contract)"},
-	"httpgrpc|done-probe":          {1, "SendMsg only needs the 'done' flag to refuse a send; the terminal error itself is reported by RecvMsg"},
-	"httpgrpc|ParseMediaType":      {2, "an unparsable Content-Type yields an empty media type, hence no codec, hence 415 (C11/R1)"},
+	"inprocgrpc|frame-writer":    {7, "server goroutines abandon a frame only when the context ended; the client re-checks ctx after every receive (C02/R1)"},
+	"inprocgrpc|TrySetTrailer":   {1, "grpc.ServerStream.SetTrailer has no error result; TrySetTrailer is the error-returning variant used by the transport stream"},
+	"httpgrpc|http-frame-writer": {1, "final trailer frame: a failed write leaves the reply without trailer, which the client reports as an error (C02/R1 HTTP)"},
+	"httpgrpc|Write":             {1, "unary body write: a short body contradicts Content-Length and fails the client's read"},
+	"httpgrpc|drain":             {2, "deferred drain of the request body: nothing to report to"},
+	"httpgrpc|Close":             {2, "closing a reply body that was read completely / drained"},
+	"httpgrpc|ReadAll":           {1, "deferred drain of the reply body so the connection can be reused"},
+	"httpgrpc|CloseWithError":    {1, "always returns nil (io.Pipe contract)"},
+	"httpgrpc|done-probe":        {1, "SendMsg only needs the 'done' flag to refuse a send; the terminal error itself is reported by RecvMsg"},
+	"httpgrpc|ParseMediaType":    {2, "an unparsable Content-Type yields an empty media type, hence no codec, hence 415 (C11/R1)"},
 }
 
 // calleeRole names the role of a callee whose error is discarded.
@@ -82,10 +82,17 @@ func c02(c *core.Ctx) {
 		c02NoFrameDropped(c)
 		c.EndRule()
 	}
+	// ---------------------------------------------------------------- R5
+	if c.Rule("R5", "a handler's error cannot be taken for the end of the stream: what an in-process stream's error frame carries is a status error (a status constructor's result, or the handler's error on the ok edge of status.FromError) — the client stream returns the frame's error as it is, and a bare io.EOF there is the success sentinel", 1) {
+		c02ErrFrameIsStatus(c)
+		c.EndRule()
+	}
+
 	// ---------------------------------------------------------------- R3
 	if c.Rule("R3", "all three status components (code, message, details) travel at every conversion site", 4) {
 		c02Components(c)
 		c02CodeWireType(c)
+		c02MessageVerbatim(c)
 		c.EndRule()
 	}
 	// ---------------------------------------------------------------- R4
@@ -983,7 +990,9 @@ func c02CodeWireType(c *core.Ctx) {
 	}
 	for _, fn := range p.LibFuncs("httpgrpc") {
 		if fn.Signature.Results().Len() == 1 && core.TypeStr(fn.Signature.Results().At(0).Type()) == "*"+statusPkg+".Status" && len(fn.Params) == 1 {
-			for _, pc := range core.CallsIn(fn, func(_ *ssa.Call, ci core.CallInfo) bool { return ci.Is("strconv.ParseInt") || ci.Is("strconv.ParseUint") }) {
+			for _, pc := range core.CallsIn(fn, func(_ *ssa.Call, ci core.CallInfo) bool {
+				return ci.Is("strconv.ParseInt") || ci.Is("strconv.ParseUint")
+			}) {
 				bits, _ := core.ConstInt(pc.Call.Args[2])
 				cliBits = fmt.Sprintf("%s/%d", core.InfoOf(&pc.Call).Name, bits)
 			}
@@ -991,4 +1000,257 @@ func c02CodeWireType(c *core.Ctx) {
 	}
 	ok := srvType == "int32" && cliBits == "ParseInt/32"
 	c.Check(ok, "unary-status-header:code-wire-type", pos, "server formats an int32, client parses a signed 32-bit integer", fmt.Sprintf("server formats the code as %s but the client parses it with %s: some (out-of-range) codes would not survive and fall back to the HTTP approximation", srvType, cliBits))
+}
+
+// c02MessageVerbatim: on the unary HTTP path the status message crosses as
+// text after the first ':' of the status header. Writer: the %s operand of the
+// header value is the Message field / Message() of the status itself. Reader:
+// what becomes the status message is the part after the first colon (SplitN
+// with n=2) or the HTTP status text, with no other transformation. Either side
+// transforming it (escaping, trimming, unescaping) without its twin alters the
+// message for some inputs.
+func c02MessageVerbatim(c *core.Ctx) {
+	p := c.P
+	accessor := func(call *ssa.Call) (ssa.Value, bool) {
+		ci := core.InfoOf(&call.Call)
+		// st.Message(), st.Proto(): accessors of the status object
+		if strings.HasSuffix(ci.Pkg, "grpc/status") || strings.HasSuffix(ci.Pkg, "internal/status") {
+			if ci.Name == "Message" || ci.Name == "Proto" || ci.Name == "GetMessage" {
+				return nil, true
+			}
+		}
+		if ci.Name == "GetMessage" {
+			return nil, true
+		}
+		return nil, false
+	}
+	// text codecs with a known inverse: accepted when the other side applies the inverse
+	inverse := map[string]string{
+		"net/url.PathEscape":                      "net/url.PathUnescape",
+		"net/url.QueryEscape":                     "net/url.QueryUnescape",
+		"strconv.Quote":                           "strconv.Unquote",
+		"encoding/base64.Encoding.EncodeToString": "encoding/base64.Encoding.DecodeString",
+	}
+	isDecoder := map[string]bool{}
+	for _, d := range inverse {
+		isDecoder[d] = true
+	}
+	var encs, decs []string
+	seenCodec := map[*ssa.Call]bool{}
+	baseAccessor := accessor
+	accessor = func(call *ssa.Call) (ssa.Value, bool) {
+		if v, ok := baseAccessor(call); ok {
+			return v, ok
+		}
+		full := core.InfoOf(&call.Call).Full()
+		if _, ok := inverse[full]; ok {
+			if !seenCodec[call] {
+				seenCodec[call] = true
+				encs = append(encs, full)
+			}
+			return call.Call.Args[len(call.Call.Args)-1], true
+		}
+		return nil, false
+	}
+	nW := 0
+	for _, hc := range httpHandlerClosures(p) {
+		if hc.Stream {
+			continue
+		}
+		for _, sp := range core.CallsIn(hc.Fn, func(call *ssa.Call, ci core.CallInfo) bool {
+			if !ci.Is("fmt.Sprintf") || len(call.Call.Args) < 2 {
+				return false
+			}
+			f, ok := core.ConstString(call.Call.Args[0])
+			return ok && strings.Contains(f, ":%")
+		}) {
+			args, ok := core.VariadicArgs(sp.Call.Args[1])
+			key := core.FuncName(hc.Fn) + ":status-header:message-verbatim"
+			if !ok || len(args) < 2 {
+				c.Undecided(key, sp.Pos(), "cannot unpack the operands of the status header value")
+				continue
+			}
+			nW++
+			bad, undec := traceVerbatim(args[1], accessor)
+			switch {
+			case bad != "":
+				c.Fail(key, sp.Pos(), "the message written into the status header is not the status' own message: %s (the reader takes the text after the first ':' as is)", bad)
+			case undec != "":
+				c.Undecided(key, sp.Pos(), "cannot trace the message operand (%s)", undec)
+			default:
+				c.Ok(key, sp.Pos(), "the message operand is the status' Message, unchanged")
+			}
+		}
+	}
+	if nW == 0 {
+		c.Fail("httpgrpc:status-header-writer", token.NoPos, "ANCHOR-MISSING: no Sprintf(\"…:%%s\") building the unary status header found in the unary handler")
+	}
+	// reader: functions returning *status.Status from an *http.Response
+	nR := 0
+	for _, fn := range p.LibFuncs("httpgrpc") {
+		if fn.Parent() != nil || len(fn.Params) != 1 || core.TypeStr(fn.Params[0].Type()) != "*net/http.Response" || fn.Signature.Results().Len() != 1 ||
+			!strings.HasSuffix(core.TypeStr(fn.Signature.Results().At(0).Type()), "status.Status") {
+			continue
+		}
+		nR++
+		key := core.FuncName(fn) + ":message-verbatim"
+		parser := func(call *ssa.Call) (ssa.Value, bool) {
+			ci := core.InfoOf(&call.Call)
+			switch {
+			case ci.Is("strings.SplitN") && len(call.Call.Args) == 3:
+				sep, okS := core.ConstString(call.Call.Args[1])
+				n, okN := core.ConstInt(call.Call.Args[2])
+				if okS && okN && sep == ":" && n == 2 {
+					return call.Call.Args[0], true
+				}
+			case ci.Is("strings.Cut") && len(call.Call.Args) == 2:
+				if sep, okS := core.ConstString(call.Call.Args[1]); okS && sep == ":" {
+					return call.Call.Args[0], true
+				}
+			case ci.Is("net/http.Header.Get"):
+				return nil, true
+			case isDecoder[ci.Full()]:
+				if !seenCodec[call] {
+					seenCodec[call] = true
+					decs = append(decs, ci.Full())
+				}
+				return call.Call.Args[len(call.Call.Args)-1], true
+			}
+			return nil, false
+		}
+		var msgs []ssa.Value
+		core.Instrs(fn, func(in ssa.Instruction) {
+			switch x := in.(type) {
+			case *ssa.Store:
+				if _, f, ok := core.FieldOf(x.Addr); ok && f == "Message" {
+					msgs = append(msgs, x.Val)
+				}
+			case *ssa.Call:
+				ci := core.InfoOf(&x.Call)
+				if strings.HasSuffix(ci.Pkg, "grpc/status") && (ci.Name == "New" || ci.Name == "Error") && len(x.Call.Args) == 2 {
+					msgs = append(msgs, x.Call.Args[1])
+				}
+			}
+		})
+		if len(msgs) == 0 {
+			c.Fail(key, fn.Pos(), "ANCHOR-MISSING: the status parser builds no status with a message")
+			continue
+		}
+		bad, undec := "", ""
+		for _, m := range msgs {
+			b, u := traceVerbatim(m, parser)
+			if b != "" {
+				bad = b
+			}
+			if u != "" {
+				undec = u
+			}
+		}
+		switch {
+		case bad != "":
+			c.Fail(key, fn.Pos(), "the status message the client reports is not the header text after the first ':' as is: %s (the writer puts the message there unchanged)", bad)
+		case undec != "":
+			c.Undecided(key, fn.Pos(), "cannot trace the message (%s)", undec)
+		default:
+			c.Ok(key, fn.Pos(), "%d message operand(s): header text after the first ':' (or the HTTP status text), unchanged", len(msgs))
+		}
+	}
+	// the codecs applied by the two sides must be inverse of each other
+	sort.Strings(encs)
+	sort.Strings(decs)
+	pair := len(encs) == len(decs)
+	if pair {
+		want := make([]string, 0, len(encs))
+		for _, e := range encs {
+			want = append(want, inverse[e])
+		}
+		sort.Strings(want)
+		for i := range want {
+			if want[i] != decs[i] {
+				pair = false
+			}
+		}
+	}
+	c.Check(pair, "httpgrpc:status-header:codec-agreement", token.NoPos, fmt.Sprintf("writer applies %v, reader applies %v", encs, decs), fmt.Sprintf("the writer of the status header applies %v to the message but the reader applies %v: not inverse of each other, some messages arrive altered", encs, decs))
+	if nR == 0 {
+		c.Fail("httpgrpc:status-header-reader", token.NoPos, "ANCHOR-MISSING: no function building a *status.Status from an *http.Response")
+	}
+}
+
+// isStatusErrValue: v is by construction a status error (never io.EOF).
+func isStatusErrValue(v ssa.Value) bool {
+	call, idx, ok := core.CallResult(v)
+	if !ok || idx != 0 {
+		return false
+	}
+	ci := core.InfoOf(&call.Call)
+	if !strings.HasSuffix(ci.Pkg, "grpc/status") && !strings.HasSuffix(ci.Pkg, "grpc/internal/status") {
+		return false
+	}
+	switch ci.Name {
+	case "Err", "Error", "Errorf":
+		return true
+	}
+	return false
+}
+
+// c02ErrFrameIsStatus implements R5 for the stream path of the in-process
+// transport (server-stream types: the frames they write are consumed by the
+// client stream, which returns frame.err unchanged).
+func c02ErrFrameIsStatus(c *core.Ctx) {
+	p := c.P
+	n := 0
+	for _, nt := range streamTypes(p, "ServerStream", "SendMsg") {
+		if pkgSuffixOf(nt) != "inprocgrpc" {
+			continue
+		}
+		for i := 0; i < nt.NumMethods(); i++ {
+			fn := p.SSA.FuncValue(nt.Method(i))
+			if fn == nil || fn.Blocks == nil {
+				continue
+			}
+			core.Instrs(fn, func(in ssa.Instruction) {
+				st, ok := in.(*ssa.Store)
+				if !ok {
+					return
+				}
+				base, f, isF := core.FieldOf(st.Addr)
+				if !isF || core.NamedOf(base.Type()) != "frame" || !core.IsErrorValue(st.Val) || core.IsNilConst(st.Val) {
+					return
+				}
+				_ = f
+				n++
+				key := core.FuncName(fn) + ":error-frame:is-status-error"
+				bad := ""
+				for _, l := range core.ErrLeaves(st.Val, st) {
+					if l.Class == core.ErrNil || isStatusErrValue(l.V) {
+						continue
+					}
+					// the handler's error itself: only where status.FromError said ok
+					leaf := l.V
+					g := core.LeafGuarded(l, func(fc core.Fact) bool {
+						if fc.Op != token.ILLEGAL || fc.Neg {
+							return false
+						}
+						ex, isEx := fc.X.(*ssa.Extract)
+						if !isEx || ex.Index != 1 {
+							return false
+						}
+						call, isC := ex.Tuple.(*ssa.Call)
+						if !isC || !core.InfoOf(&call.Call).Is("google.golang.org/grpc/status.FromError") {
+							return false
+						}
+						return core.SameVal(call.Call.Args[0], leaf) || sameOrigins(call.Call.Args[0], leaf)
+					})
+					if !g {
+						bad = "the error put into the frame can be a plain Go error (" + core.ValName(leaf) + " is not known to be a status error here)"
+					}
+				}
+				c.Check(bad == "", key, st.Pos(), "every value the error frame can carry is a status error", bad+": a streaming handler that returns io.EOF (the classic `return err` after Recv) ends the client's stream with a bare io.EOF, which is the success sentinel — the failed call is reported as success; the standard transport reports Unknown")
+			})
+		}
+	}
+	if n == 0 {
+		c.Fail("inprocgrpc:error-frame", token.NoPos, "ANCHOR-MISSING: no method of an in-process server stream type stores an error into a frame")
+	}
 }
